@@ -14,6 +14,15 @@ use robopoker::mccfr::regret::Regret;
 use robopoker::gameplay::ply::Turn;
 use std::collections::BTreeMap;
 
+/// first epoch of the prune phase (Phase::from): found by asking the library
+fn robopoker_prune_start() -> usize {
+    let (mut lo, mut hi) = (0usize, 10_000_000usize);
+    while lo < hi {
+        let mid = (lo + hi) / 2;
+        if robopoker::mccfr::phase::Phase::from(mid) == robopoker::mccfr::phase::Phase::Prune { hi = mid } else { lo = mid + 1 }
+    }
+    lo
+}
 fn bits(v: &[f32]) -> String {
     if v.is_empty() { "-".into() } else { v.iter().map(|x| x.to_bits().to_string()).collect::<Vec<_>>().join(",") }
 }
@@ -25,7 +34,8 @@ pub fn run(o: &Opts, _deck: &str) -> String {
     let mut total = 0u64;
     for q in 0..nseq {
         let len = match q % 6 { 0 => 1, 1 => 2 + rng.below(5) as usize, 2 => 380 + rng.below(30) as usize, 3 => 2000, 4 => 5 + rng.below(35) as usize, _ => 1 + rng.below(600) as usize };
-        let start = if q % 7 == 3 { 385 } else { 0 }; // some sequences start near the end of the discount phase
+        // some sequences start near the end of the discount phase, some near the start of the prune phase
+        let start = if q % 7 == 3 { 385 } else if q % 7 == 5 { robopoker_prune_start() - 5 } else { 0 };
         let past = Path::from(vec![Edge::Check]);
         let fut = Path::from(edges.to_vec());
         let present = Abstraction::from((Street::Flop, q % 128));
@@ -68,9 +78,12 @@ pub fn run(o: &Opts, _deck: &str) -> String {
             total += 1;
         }
         let (fr, fp) = p.verif_memory(&bucket, &e).unwrap();
+        // the average strategy as the library reports it, beside the accumulators it is computed from
+        let accs: Vec<f32> = edges.iter().map(|x| p.verif_memory(&bucket, x).map(|m| m.1).unwrap_or(f32::NAN)).collect();
+        let wts: Vec<f32> = edges.iter().map(|x| catch(|| p.weight(&bucket, x)).unwrap_or(f32::NAN)).collect();
         out.line(&format!(
-            "disc {} {} {} {} {} | {} {} {} {} {}",
-            start, init_r.to_bits(), init_p.to_bits(), bits(&rs), bits(&ps), bits(&dr), bits(&dp), fr.to_bits(), fp.to_bits(), walkers
+            "disc {} {} {} {} {} | {} {} {} {} {} {} {}",
+            start, init_r.to_bits(), init_p.to_bits(), bits(&rs), bits(&ps), bits(&dr), bits(&dp), fr.to_bits(), fp.to_bits(), walkers, bits(&accs), bits(&wts)
         ));
     }
     let lines = out.finish();
